@@ -63,9 +63,10 @@ def enumerate_cases(tier):
             k += 1
             cells.append(dict(typ=typ, op=op, m=3, t=1, prss=bool(k % 2), coalition=[1 + (k // 2) % 2], n=n, seed=k))
     # wide types (l > sec_param): masks must grow with l -- a mask of k bits only hides l <= k
+    heavy = tier == 'thorough'   # the expensive wide-type protocols only in the thorough tier
     for typ, ops in ((['int', 64], ['lt0', 'eq0', 'lsb', 'mod3', 'mod8', 'floordiv3', 'rshift2', 'to_bits8', 'izp',
-                                    'conv_int', 'max0']),
-                     (['fxp', 64, 32], ['fmul', 'flt0', 'ftrunc'])):
+                                    'conv_int', 'max0'] + (['sgn', 'to_bits', 'conv_fld', 'abs'] if heavy else [])),
+                     (['fxp', 64, 32], ['fmul', 'flt0', 'ftrunc'] + (['fdiv', 'frec'] if heavy else []))):
         for op in ops:
             k += 1
             cells.append(dict(typ=typ, op=op, m=3, t=1, prss=bool(k % 2), coalition=[1 + (k // 2) % 2], n=n, seed=k))
